@@ -19,7 +19,7 @@ CFG = dict(
     lean_files=["Trig", "Pipe", "PipeJudge", "C02", "C09", "Pipe1", "Pipe2", "Edge", "Level", "Auto", "Passes", "TrigIdx", "EdgeGlobal", "LevelGlobal", "AutoDense", "AutoGlobal", "PipeProj", "Pipe3", "EmtRecs", "Reconf", "SoundGlobal", "Compose", "AutoSpacing"],
     trusted_base=_PIPE_TB,
     assumptions=["auto delay enters the model as an integer number of samples computed with the code's own expression",
-                 "the auto-gap theorem is for no veto (as the property says); with a veto only no-crash/in-range is proved and the oracle judges nothing about gaps"],
+                 "the auto-gap theorem is for no veto (as the property says); with a veto only no-crash/in-range is proved and the oracle judges nothing about gaps; the auto SPACING clause (a trigger that is neither an edge nor a level crossing comes at least the auto delay after the previous trigger: C02_auto_spacing, oracle clause unsound-auto) holds and is judged with or without a veto"],
     timeout=dict(quick=900, thorough=3600),
 )
 MANIFEST = dict(
